@@ -160,12 +160,60 @@ func runC39(c *core.Ctx) {
 		c.Broken("C39.per-entry", fn, "entry variable sig = tx.Sigs[i]", c.P.Rel(lp.Cond.Pos()), "not found")
 		return
 	}
+	// hybrid: the entry is copied in fn, its counts are tested in fn, and a same-package helper handed
+	// the copy verifies it and answers (address, error): the four count guards stay obligations of
+	// fn's insertions, the verification / derivation obligations move to the helper's error-free returns
+	siteHost := host
+	var entry2 ssa.Value
 	if host == fn {
+		var via *ssa.Call
+		for _, mu := range inserts {
+			k, ki := ir.CallOf(mu.Key)
+			if k == nil || ki != 0 || (via != nil && k != via) {
+				via = nil
+				break
+			}
+			via = k
+		}
+		if via != nil {
+			if h := via.Common().StaticCallee(); h != nil && h.Pkg == fn.Pkg && len(h.Blocks) > 0 && h.Signature.Results().Len() == 2 {
+				for ai, a := range via.Common().Args {
+					ld, isLd := a.(*ssa.UnOp)
+					if !isLd || ld.X != entry || ai >= len(h.Params) {
+						continue
+					}
+					for _, hin := range h.Blocks[0].Instrs {
+						if st, isSt := hin.(*ssa.Store); isSt && st.Val == ssa.Value(h.Params[ai]) {
+							if al, isAl := st.Addr.(*ssa.Alloc); isAl {
+								entry2 = al
+							}
+						}
+					}
+				}
+				if entry2 != nil {
+					siteHost = h
+					defer ir.BindParams(h, via.Common().Args)()
+					c.Attribute(h, fn)
+					var insSinks []ir.Sink
+					for _, mu := range inserts {
+						insSinks = append(insSinks, ir.Sink{Instr: mu, Note: "address insertion"})
+					}
+					eng.Dominates(c, "C39.per-entry", fn, eng.NamedGuard{Name: h.Name() + " err==nil", G: ir.ErrNil(func(x *ssa.Call) bool { return x == via })}, insSinks, "address insertion (per entry)", &eng.Opt{StartBlock: lp.Body})
+					for _, s := range ir.SuccessSinks(h) {
+						if ret, isRet := s.Instr.(*ssa.Return); isRet {
+							sites = append(sites, addrSite{ret, ret.Results[0], ret})
+						}
+					}
+				}
+			}
+		}
+	}
+	if host == fn && siteHost == fn {
 		for _, mu := range inserts {
 			sites = append(sites, addrSite{mu, mu.Key, nil})
 		}
 	}
-	isEntry := func(v ssa.Value) bool { return v == entry }
+	isEntry := func(v ssa.Value) bool { return v == entry || (entry2 != nil && v == entry2) }
 	kn := isLenOfField("PubKeys", isEntry)
 	sn := isLenOfField("SigData", isEntry)
 	m := isFieldOf("M", isEntry)
@@ -176,6 +224,14 @@ func runC39(c *core.Ctx) {
 	var sinks []ir.Sink
 	for _, st := range sites {
 		sinks = append(sinks, ir.Sink{Instr: st.in, Note: "address insertion"})
+	}
+	siteOpt := opt
+	if siteHost != host {
+		sinks = nil
+		for _, mu := range inserts {
+			sinks = append(sinks, ir.Sink{Instr: mu, Note: "address insertion"})
+		}
+		siteOpt = nil
 	}
 	eng.Dominates(c, "C39.per-entry", host, relGuard("len(sig.PubKeys) <= MULTI_SIG_MAX_PUBKEY_SIZE", kn, isConstInt(kKey), token.LEQ), sinks, "address insertion (per entry)", opt)
 	eng.Dominates(c, "C39.per-entry", host, relGuard("len(sig.SigData) >= m", sn, m, token.GEQ), sinks, "address insertion (per entry)", opt)
@@ -228,11 +284,11 @@ func runC39(c *core.Ctx) {
 		if cl := calleeNamed(mu.key, "AddressFromPubKey"); cl != nil && ir.CalleeIs(cl, afp) {
 			nSingle++
 			c.Decide(elem0("PubKeys")(cl.Common().Args[0]), "C39.address", fn, "single-key entry is attributed AddressFromPubKey(sig.PubKeys[0])", c.P.Rel(mu.in.Pos()), "")
-			eng.Dominates(c, "C39.single", host, relGuard("len(sig.PubKeys) == 1", kn, isConstInt(1), token.EQL), one, "single-key address insertion", opt)
-			eng.Dominates(c, "C39.single", host, eng.NamedGuard{Name: "signature.Verify(sig.PubKeys[0], hash[:], sig.SigData[0]) err==nil", G: ir.ErrNil(func(x *ssa.Call) bool {
+			eng.Dominates(c, "C39.single", siteHost, relGuard("len(sig.PubKeys) == 1", kn, isConstInt(1), token.EQL), one, "single-key address insertion", siteOpt)
+			eng.Dominates(c, "C39.single", siteHost, eng.NamedGuard{Name: "signature.Verify(sig.PubKeys[0], hash[:], sig.SigData[0]) err==nil", G: ir.ErrNil(func(x *ssa.Call) bool {
 				a := x.Common().Args
 				return ir.CalleeIs(x, verify) && elem0("PubKeys")(a[0]) && isHash(a[1]) && elem0("SigData")(a[2])
-			})}, one, "single-key address insertion", opt)
+			})}, one, "single-key address insertion", siteOpt)
 			continue
 		}
 		if cl, idx := ir.CallOf(mu.key); cl != nil && idx <= 0 && ir.CalleeIs(cl, afm) {
@@ -246,14 +302,14 @@ func runC39(c *core.Ctx) {
 				}
 			}
 			if forwardsErr {
-				c.Hold("C39.multi", host, "AddressFromMultiPubKeys err==nil ≺ multi-key address insertion", c.P.Rel(mu.in.Pos()), "the derivation's error is returned as the helper's error")
+				c.Hold("C39.multi", siteHost, "AddressFromMultiPubKeys err==nil ≺ multi-key address insertion", c.P.Rel(mu.in.Pos()), "the derivation's error is returned as the helper's error")
 			} else {
-				eng.Dominates(c, "C39.multi", host, eng.NamedGuard{Name: "AddressFromMultiPubKeys err==nil", G: ir.ErrNil(func(x *ssa.Call) bool { return x == cl })}, one, "multi-key address insertion", opt)
+				eng.Dominates(c, "C39.multi", siteHost, eng.NamedGuard{Name: "AddressFromMultiPubKeys err==nil", G: ir.ErrNil(func(x *ssa.Call) bool { return x == cl })}, one, "multi-key address insertion", siteOpt)
 			}
-			eng.Dominates(c, "C39.multi", host, eng.NamedGuard{Name: "VerifyMultiSignature(hash[:], sig.PubKeys, m, sig.SigData) err==nil", G: ir.ErrNil(func(x *ssa.Call) bool {
+			eng.Dominates(c, "C39.multi", siteHost, eng.NamedGuard{Name: "VerifyMultiSignature(hash[:], sig.PubKeys, m, sig.SigData) err==nil", G: ir.ErrNil(func(x *ssa.Call) bool {
 				a := x.Common().Args
 				return ir.CalleeIs(x, vms) && isHash(a[0]) && whole("PubKeys")(a[1]) && m(a[2]) && whole("SigData")(a[3])
-			})}, one, "multi-key address insertion", opt)
+			})}, one, "multi-key address insertion", siteOpt)
 			continue
 		}
 		c.Violate("C39.address", fn, "inserted address is AddressFromPubKey / AddressFromMultiPubKeys of the entry", c.P.Rel(mu.in.Pos()), "unrecognised key "+mu.key.Name())
